@@ -6,9 +6,28 @@ SRC=${1:-/verif/benign}
 W=${SCRATCH:-/tmp/benign-repo}
 rm -rf $W; git -C /repo worktree prune; git -C /repo worktree add -q --detach $W HEAD || exit 2
 trap 'git -C /repo worktree remove --force $W 2>/dev/null; rm -rf $W' EXIT
-props=$(python3 -c "import json;print(' '.join(c['property_id'] for c in json.load(open('/verif/MANIFEST.json'))['checks']))")
+allprops=$(python3 -c "import json;print(' '.join(c['property_id'] for c in json.load(open('/verif/MANIFEST.json'))['checks']))")
+# BENIGN_AFFECTED=1: only the checks whose functions under contract live in (or call into) the files a diff touches
+affected() {
+  python3 - "$1" <<'PY'
+import re, sys
+files = set(re.findall(r'^\+\+\+ b/(\S+)', open(sys.argv[1]).read(), re.M))
+m = {'message.go': 'C01 C02 C03 C04 C05 C06 C07 C08 C09 C12 C19', 'attributes.go': 'C01 C02 C03 C04 C05 C06 C07 C09', 'helpers.go': 'C02 C03 C09',
+     'checks.go': 'C04 C05 C06 C07 C09', 'checks_debug.go': 'C04 C05 C06 C07 C09', 'errors.go': 'C01 C02 C07',
+     'textattrs.go': 'C03 C06 C07 C09', 'addr.go': 'C03 C06 C07 C09', 'xoraddr.go': 'C03 C06 C07 C09', 'errorcode.go': 'C03 C06 C07 C09', 'uattrs.go': 'C03 C06 C07 C09',
+     'integrity.go': 'C03 C04 C07 C09', 'fingerprint.go': 'C03 C05 C07 C09', 'fingerprint_debug.go': 'C05 C07', 'integrity_debug.go': 'C04 C07',
+     'agent.go': 'C10 C12 C13 C14', 'client.go': 'C10 C11 C12 C15 C17', 'uri.go': 'C16 C17', 'stun.go': 'C01 C03',
+     'internal/hmac/hmac.go': 'C04 C18', 'internal/hmac/pool.go': 'C04 C18'}
+out = set()
+for f in files:
+    out |= set(m.get(f, 'C01 C02 C03 C04 C05 C06 C07 C08 C09 C10 C11 C12 C13 C14 C15 C16 C17 C18 C19').split())
+print(' '.join(sorted(out)))
+PY
+}
 for d in $SRC/*.diff; do
   id=$(basename $d .diff)
+  props=$allprops
+  [ -n "${BENIGN_AFFECTED:-}" ] && props=$(affected $d)
   git -C $W apply $d 2>/dev/null || { echo "$id: PATCH-DOES-NOT-APPLY"; continue; }
   tmp=$(mktemp -d)
   for p in $props; do
